@@ -82,7 +82,7 @@ class Check(PropCheck):
     pid = 'C20'
     tol = 1e-9
     release_too = True
-    timeout = 6           # every shard finishes in a second or two; anything longer is a hang
+    timeout = 15          # every shard finishes in a second or two; anything longer is a hang
     rule = ('EXHAUSTIVE cross product for the declared classes: every public function of Tree (all queries, traversals from every id incl. '
             'removed / out of range, all ordered id pairs for lca / distance / merge, every mutator), DistanceMatrix (all accessors, codec, '
             'UPGMA) and the generators x every class of degenerate value (empty, single node, several roots, all-removed arena, unnamed / '
